@@ -45,7 +45,9 @@ ASSUMPTIONS = [
     'Gen.srInstitutionStored; the oracle only demands that no department is recorded when none was given and that it is the one '
     'given when both are)',
     'raw stream: the value of an attribute is opaque to the model (a digest); data sets are plain pydicom objects, as a third '
-    "party's reader hands them over (a highdicom ContentSequence cannot even be deep-copied once an item lost its concept name)",
+    "party's reader hands them over (a highdicom ContentSequence cannot even be deep-copied once an item lost its concept name); "
+    'foreign attributes (optional standard ones, nested inside value sequences, context group attributes, private elements) are '
+    'planted on 60 % of the trees; private elements only below the root (on the root they become attributes of the document)',
     'an item of value type IMAGE / COMPOSITE / SCOORD / SCOORD3D / TCOORD / WAVEFORM may lack its concept name (type 1C): the '
     'document then carries the name (260753009, SCT, Source) the parsers store, and searches treat the item as carrying it',
 ]
@@ -1062,6 +1064,51 @@ def _raw_case(ctx, idx):
         for ch in (item.ContentSequence if 'ContentSequence' in item else []):
             collect(ch, d + 1)
     collect(root, 0)
+    # FOREIGN attributes: what no highdicom constructor writes but a data set may carry - optional standard attributes of the
+    # content item, attributes nested inside value sequences, private elements, context group attributes in a name.  The
+    # document must carry them like everything else.  (Private elements only below the root: on the root they become
+    # indistinguishable from the document's own attributes once written.)
+    fr = ctx.rng('rawforeign', idx)
+    foreign = []
+    if fr.random() < 0.6:
+        import pydicom
+        from pydicom.dataelem import DataElement
+        for _ in range(fr.randint(1, 4)):
+            n, d = fr.choice(nodes)
+            vt_ = str(n.get('ValueType'))
+            kind = fr.choice(['observation', 'private', 'nested-num', 'nested-ref', 'name-context', 'template'])
+            if kind == 'observation':
+                n.ObservationDateTime = '20200101120000'
+                n.ObservationUID = f'1.2.826.0.1.3680043.8.498.55.{idx}.{len(foreign)}'
+            elif kind == 'private' and d > 0:
+                n.add_new(0x00990010, 'LO', 'VERIF PRIVATE')
+                n.add_new(0x00991001, 'LO', f'private value {idx}')
+                n.add_new(0x00991002, 'DS', '1.25')
+            elif kind == 'nested-num' and vt_ == 'NUM' and 'MeasuredValueSequence' in n:
+                mv = n.MeasuredValueSequence[0]
+                mv.RationalNumeratorValue = 5
+                mv.RationalDenominatorValue = 4
+            elif kind == 'nested-ref' and vt_ in ('IMAGE', 'COMPOSITE') and 'ReferencedSOPSequence' in n:
+                rs = n.ReferencedSOPSequence[0]
+                ps = pydicom.Dataset()
+                ps.ReferencedSOPClassUID = '1.2.840.10008.5.1.4.1.1.11.1'
+                ps.ReferencedSOPInstanceUID = f'1.2.826.0.1.3680043.8.498.56.{idx}'
+                rs[0x00081199] = DataElement(0x00081199, 'SQ', pydicom.Sequence([ps]))    # nested ReferencedSOPSequence
+                if vt_ == 'IMAGE' and 'ReferencedFrameNumber' not in rs:
+                    rs.ReferencedFrameNumber = [1, 3]
+            elif kind == 'name-context' and 'ConceptNameCodeSequence' in n:
+                nm = n.ConceptNameCodeSequence[0]
+                nm.ContextIdentifier = '7021'
+                nm.MappingResource = 'DCMR'
+                nm.ContextGroupVersion = '20200101'
+            elif kind == 'template' and vt_ == 'CONTAINER' and 'ContentTemplateSequence' not in n:
+                tp = pydicom.Dataset()
+                tp.MappingResource = 'DCMR'
+                tp.TemplateIdentifier = '9999'
+                n.ContentTemplateSequence = [tp]
+            else:
+                continue
+            foreign.append((kind, d, vt_))
     fault = RAW_FAULTS[idx % len(RAW_FAULTS)] if idx < 4 * len(RAW_FAULTS) else r.choice(RAW_FAULTS)
     planted = []
     for f in fault.split('+'):
@@ -1094,7 +1141,7 @@ def _raw_case(ctx, idx):
             n, d = r.choice(nodes)
             del n.ValueType
         planted.append((f, d, str(n.get('ValueType'))))
-    return {'idx': idx, 'pool': pool, 'root': root, 'fault': fault, 'planted': planted, 'depth': depth}
+    return {'idx': idx, 'pool': pool, 'root': root, 'fault': fault, 'planted': planted, 'depth': depth, 'foreign': foreign}
 
 
 def _check_raw(ctx, c, reqs, pending):
@@ -1122,6 +1169,10 @@ def _check_raw(ctx, c, reqs, pending):
              nontrivial_key=('raw', c['fault'], tuple(c['planted']), ok))
     for f, d, vt in c['planted']:
         ctx.hist('raw_planted', f'{f}@depth{min(d, 4)}/{vt}')
+    for f, d, vt in c.get('foreign', []):
+        ctx.hist('raw_foreign', f'{f}@depth{min(d, 4)}/{vt}')
+    if not c.get('foreign'):
+        ctx.hist('raw_foreign', 'none')
     if canon(root) != before:
         ctx.fail(case, 'the content tree handed in was modified by the constructor', site='sr.ctor/input-mutated')
     if why:
